@@ -4,6 +4,9 @@ package main
 
 import (
 	"bytes"
+	"compress/flate"
+	"compress/gzip"
+	"compress/zlib"
 	"context"
 	"encoding/json"
 	"errors"
@@ -82,6 +85,7 @@ type c13In struct {
 	ReadChunk int         `json:"read_chunk,omitempty"` // resp: 0 the body is read with io.ReadAll; k > 0: with Read calls on a k-byte buffer
 	Debug     bool        `json:"debug,omitempty"`      // resp, seq: the Runtime's Debug option is on (requests and responses are dumped to a logger that discards them)
 	ViaCons   bool        `json:"via_cons,omitempty"`   // resp: the reader hands Body() to the consumer it was given (as generated readers do); the consumer keeps what it receives
+	Via       int         `json:"via,omitempty"`        // resp, route, ctx, seq: the operation is submitted to 0 the Runtime itself, 1 rt.WithOpenTelemetry(), 2 rt.WithOpenTracing() (decorators that only add spans: nothing the caller configured may depend on them)
 	// route
 	OpCfg    *c13Client `json:"op_cfg,omitempty"` // nil: no operation client
 	RtCfg    *c13Client `json:"rt_cfg,omitempty"`
@@ -181,6 +185,8 @@ func (c13) Rule() string {
 		"context cases: operation context and runtime context each absent / plain / with a deadline earlier or later than the other's / cancelled beforehand, with and without a request timeout, the operation's or the runtime's context cancelled while the round tripper holds the request (observed: whose value and which deadline arrive, whether the request context ends, whether Submit fails); " +
 		"sequences of calls on one Runtime whose readers keep the ClientResponse and ask it again after later calls; plus concurrent cases: G goroutines x K calls on one fresh Runtime with correlation tokens, stub transport or a real httptest server, under the race detector. " +
 		"a quarter of the response and sequence cases with the Runtime's Debug option on; a third of the response cases with credential-bearing headers (Set-Cookie, WWW-Authenticate, Proxy-Authenticate, Authentication-Info, X-Auth-Token, X-Api-Key, Authorization, ...) of one to three lines, also enumerated x Debug off / on. " +
+		"a third of the response, route, context and sequence cases submitted through rt.WithOpenTelemetry() / rt.WithOpenTracing() instead of the Runtime itself (also enumerated x operation client x operation context); " +
+		"a sixth of the response cases announced with a Content-Encoding (gzip, x-gzip, deflate, br, identity, ...) and a Content-Length, the payload a real gzip / zlib / deflate stream (also truncated, damaged, two members, header alone) or plain. " +
 		"Non-trivial: a response case whose registry has at least two entries, or any route, context, sequence or concurrent case."
 }
 
@@ -233,6 +239,22 @@ func (c13NullLogger) Debugf(string, ...interface{}) {}
 func c13SetDebug(rt *client.Runtime, on bool) {
 	rt.SetLogger(c13NullLogger{})
 	rt.Debug = on
+}
+
+// c13Via gives the transport the operation is submitted to: the Runtime itself or one of the tracing decorators it offers
+// (they wrap the operation's writer and reader when the operation has a context and hand the call on to the Runtime).
+func c13Via(rt *client.Runtime, via int) runtime.ClientTransport {
+	switch via {
+	case 1:
+		return rt.WithOpenTelemetry()
+	case 2:
+		return rt.WithOpenTracing()
+	}
+	return rt
+}
+
+func c13ViaName(via int) string {
+	return []string{"", "/via:opentelemetry", "/via:opentracing"}[via%3]
 }
 
 type c13Stub struct {
@@ -356,7 +378,8 @@ func (c13) Run(inAny any) any {
 	}
 	var res interface{}
 	var err error
-	obs.Panicked, obs.Panic = recoverTo(func() { res, err = rt.Submit(op) })
+	tr := c13Via(rt, in.Via)
+	obs.Panicked, obs.Panic = recoverTo(func() { res, err = tr.Submit(op) })
 	obs.Client, obs.Ctx = int(used), int(ctxBy)
 	if obs.Panicked {
 		return obs
@@ -709,10 +732,11 @@ func c13RunRoute(in c13In) c13Obs {
 	old := http.DefaultTransport
 	http.DefaultTransport = &c13RouteStub{who: c13WhoDefault, rec: rec, slow: in.Slow}
 	var err error
+	via := c13Via(rt, in.Via)
 	done := make(chan struct{})
 	go func() {
 		defer close(done)
-		obs.Panicked, obs.Panic = recoverTo(func() { _, err = rt.Submit(op) })
+		obs.Panicked, obs.Panic = recoverTo(func() { _, err = via.Submit(op) })
 	}()
 	select {
 	case <-done:
@@ -816,8 +840,11 @@ func c13RunSeq(in c13In) c13Obs {
 				return nil, nil
 			}),
 		}
+		if in.Via != 0 { // the decorators act on operations that have a context
+			op.Context = context.Background()
+		}
 		var err error
-		p, msg := recoverTo(func() { _, err = rt.Submit(op) })
+		p, msg := recoverTo(func() { _, err = c13Via(rt, in.Via).Submit(op) })
 		switch {
 		case p:
 			obs.Panicked, obs.Panic = true, msg
@@ -954,10 +981,11 @@ func c13RunCtx(in c13In) c13Obs {
 		defer stub.cancelOp()
 	}
 	var err error
+	via := c13Via(rt, in.Via)
 	done := make(chan struct{})
 	go func() {
 		defer close(done)
-		obs.Panicked, obs.Panic = recoverTo(func() { _, err = rt.Submit(op) })
+		obs.Panicked, obs.Panic = recoverTo(func() { _, err = via.Submit(op) })
 	}()
 	select {
 	case <-done:
@@ -1105,7 +1133,7 @@ func (c13) Category(inAny any, obsAny any) (string, bool) {
 		if in.Slow {
 			slow = "/slow"
 		}
-		return "route/op:" + name(in.OpCfg) + "/" + rtk + name(in.RtCfg) + slow + "/" + res, true
+		return "route/op:" + name(in.OpCfg) + "/" + rtk + name(in.RtCfg) + slow + "/" + res + c13ViaName(in.Via), true
 	}
 	if in.Kind == "ctx" {
 		name := func(c *c13Ctx) string {
@@ -1128,7 +1156,7 @@ func (c13) Category(inAny any, obsAny any) (string, bool) {
 		if in.TimeoutRank > 0 {
 			to = "/timeout"
 		}
-		return "ctx/op:" + name(in.OpCtxCfg) + "/rt:" + name(in.RtCtxCfg) + rel + "/" + act + to, true
+		return "ctx/op:" + name(in.OpCtxCfg) + "/rt:" + name(in.RtCtxCfg) + rel + "/" + act + to + c13ViaName(in.Via), true
 	}
 	if in.Kind == "seq" {
 		fails := 0
@@ -1137,7 +1165,7 @@ func (c13) Category(inAny any, obsAny any) (string, bool) {
 				fails++
 			}
 		}
-		return fmt.Sprintf("seq/calls=%d/failed=%d", len(in.Calls), fails), true
+		return fmt.Sprintf("seq/calls=%d/failed=%d", len(in.Calls), fails) + c13ViaName(in.Via), true
 	}
 	hct, has := c13HeaderCT(in)
 	star := false
@@ -1185,6 +1213,16 @@ func (c13) Category(inAny any, obsAny any) (string, bool) {
 			break
 		}
 	}
+	for _, h := range in.Headers {
+		if string(h.Key) == "Content-Encoding" {
+			opt += "/content-encoding"
+			break
+		}
+	}
+	if in.OpCtx {
+		opt += "/op-ctx"
+	}
+	opt += c13ViaName(in.Via)
 	return "resp/" + ct + "/" + reg + "/" + out + "/" + who + opt + "/body:" + c13BodyClass([]byte(in.Body)), len(in.Registry) >= 2
 }
 
@@ -1203,6 +1241,10 @@ func c13BodyClass(b []byte) string {
 		return "one-byte"
 	case b[0] == 0xEF:
 		return "bom-lookalike"
+	case len(b) >= 18 && bytes.HasPrefix(b, []byte{0x1F, 0x8B, 0x08}):
+		return "gzip-stream"
+	case len(b) >= 8 && b[0] == 0x78 && (int(b[0])<<8|int(b[1]))%31 == 0:
+		return "zlib-stream"
 	case bytes.HasPrefix(b, []byte{0x1F, 0x8B}), bytes.HasPrefix(b, []byte("PK")), bytes.HasPrefix(b, []byte("\x89PNG")), bytes.HasPrefix(b, []byte("%PDF")):
 		return "magic"
 	case b[0] == ' ' || b[0] == '\n' || b[0] == '\r' || b[0] == '\t':
@@ -1254,6 +1296,60 @@ var c13BodyHeads = []string{
 var c13BodyTails = []string{
 	"", "{\"a\":1}", "{\"a\":1}\n", "id;name\n1;x\n", "a,b\r\n1,2\r\n", "<?xml version=\"1.0\"?><a/>", "plain text", "x", "\x00", "\n",
 	"tail \xEF\xBB\xBF inside", "ends with a mark \xEF\xBB\xBF", "[1,2,3]", "\"str\"", "null",
+}
+
+// Content-Encoding values a server may announce (the Runtime hands the response on as received: what the transport left
+// encoded stays encoded, and the header stays with it) and the shapes an encoded body may have
+var c13Encodings = []string{"gzip", "gzip", "GZIP", "x-gzip", "deflate", "br", "identity", "zstd", "compress", "gzip, identity", "deflate, gzip", ""}
+
+// c13Encode renders doc in one of the shapes an encoded payload takes: 0 gzip, 1 gzip with name and comment fields, 2 gzip cut
+// short inside the stream, 3 gzip whose trailer (checksum) is damaged, 4 two gzip members, 5 gzip followed by other bytes,
+// 6 zlib, 7 raw deflate, 8 a gzip header alone, 9 a gzip header followed by bytes that are no deflate stream.
+const c13EncodeShapes = 10
+
+func c13Encode(doc []byte, shape int) []byte {
+	gz := func(d []byte, named bool) []byte {
+		var b bytes.Buffer
+		w := gzip.NewWriter(&b)
+		if named {
+			w.Name, w.Comment = "doc.json", "as stored"
+		}
+		_, _ = w.Write(d)
+		_ = w.Close()
+		return b.Bytes()
+	}
+	switch shape % c13EncodeShapes {
+	case 0:
+		return gz(doc, false)
+	case 1:
+		return gz(doc, true)
+	case 2:
+		b := gz(doc, false)
+		return b[:len(b)-9]
+	case 3:
+		b := gz(doc, false)
+		b[len(b)-6] ^= 0x55
+		return b
+	case 4:
+		return append(gz(doc, false), gz([]byte("second member"), false)...)
+	case 5:
+		return append(gz(doc, false), []byte("trailing bytes")...)
+	case 6:
+		var b bytes.Buffer
+		w := zlib.NewWriter(&b)
+		_, _ = w.Write(doc)
+		_ = w.Close()
+		return b.Bytes()
+	case 7:
+		var b bytes.Buffer
+		w, _ := flate.NewWriter(&b, flate.DefaultCompression)
+		_, _ = w.Write(doc)
+		_ = w.Close()
+		return b.Bytes()
+	case 8:
+		return gz(nil, false)[:10]
+	}
+	return append(gz(nil, false)[:10], []byte("\xff\xfe not a deflate stream")...)
 }
 
 // c13GenBody: half of the bodies are a head from the pool followed by a document, now and then longer than the
@@ -1345,8 +1441,32 @@ func (c13) Gen(r *rand.Rand, tier string, i int) any {
 			in.Queries = append(in.Queries, Bs([]string{k, strings.ToLower(k), strings.ToUpper(k)}[r.Intn(3)]))
 		}
 	}
-	r.Shuffle(len(in.Headers), func(a, b int) { in.Headers[a], in.Headers[b] = in.Headers[b], in.Headers[a] })
 	in.Body = Bs(c13GenBody(r))
+	if r.Intn(6) == 0 { // the payload is announced as encoded (and mostly is): the reader stores / forwards it as received
+		enc := c13Encodings[r.Intn(len(c13Encodings))]
+		if r.Intn(3) != 0 {
+			doc := []byte(c13BodyTails[r.Intn(len(c13BodyTails))])
+			if r.Intn(10) == 0 {
+				doc = bytes.Repeat([]byte("{\"k\":\"0123456789abcdef\"},"), 300+r.Intn(50)) // inflates beyond 4096
+			}
+			in.Body = Bs(c13Encode(doc, r.Intn(c13EncodeShapes)))
+		}
+		var hs []c13Header
+		for _, h := range in.Headers {
+			if string(h.Key) != "Content-Length" {
+				hs = append(hs, h)
+			}
+		}
+		in.Headers = append(hs, c13Header{Key: "Content-Encoding", Values: []Bs{Bs(enc)}}, c13Header{Key: "Content-Length", Values: []Bs{Bs(strconv.Itoa(len(in.Body)))}})
+		if r.Intn(4) == 0 {
+			in.Headers = append(in.Headers, c13Header{Key: "Vary", Values: []Bs{"Accept-Encoding"}})
+		}
+		in.Queries = append(in.Queries, Bs([]string{"Content-Encoding", "content-encoding"}[r.Intn(2)]), "Content-Length")
+	} else if r.Intn(12) == 0 { // an encoded payload that is not announced
+		in.Body = Bs(c13Encode([]byte(c13BodyTails[r.Intn(len(c13BodyTails))]), r.Intn(c13EncodeShapes)))
+		in.Queries = append(in.Queries, "content-encoding")
+	}
+	r.Shuffle(len(in.Headers), func(a, b int) { in.Headers[a], in.Headers[b] = in.Headers[b], in.Headers[a] })
 	in.ReadChunk = []int{0, 0, 1, 2, 3, 5, 512, 4096}[r.Intn(8)]
 	in.ViaCons = r.Intn(2) == 0
 	for j := r.Intn(4); j > 0; j-- {
@@ -1365,7 +1485,19 @@ func (c13) Gen(r *rand.Rand, tier string, i int) any {
 		in.Headers, in.NilHeader = nil, true
 	}
 	in.OpClient, in.OpCtx, in.RtCtx = r.Intn(3) == 0, r.Intn(3) == 0, r.Intn(2) == 0
+	in.Via = c13GenVia(r)
+	if in.Via != 0 && r.Intn(2) == 0 { // the decorators act on operations that have a context
+		in.OpCtx = true
+	}
 	return in
+}
+
+// c13GenVia: a third of the calls go through one of the tracing decorators of the Runtime
+func c13GenVia(r *rand.Rand) int {
+	if r.Intn(3) != 0 {
+		return 0
+	}
+	return 1 + r.Intn(2)
 }
 
 func c13GenClient(r *rand.Rand) *c13Client {
@@ -1381,6 +1513,10 @@ func c13GenRoute(r *rand.Rand) c13In {
 	in.RtPreset = r.Intn(2) == 0
 	if !in.RtPreset { // the lazily built client has a transport and a jar only
 		in.RtCfg.Redirect, in.RtCfg.Timeout = 0, false
+	}
+	in.Via = c13GenVia(r)
+	if in.Via != 0 && r.Intn(2) == 0 {
+		in.OpCtx = true
 	}
 	if r.Intn(10) == 0 {
 		in.Slow = true
@@ -1413,6 +1549,7 @@ func c13GenCtx(r *rand.Rand) c13In {
 		in.TimeoutRank = 1 + r.Intn(11)
 	}
 	in.Action = []int{0, 1, 1, 2}[r.Intn(4)]
+	in.Via = c13GenVia(r)
 	return in
 }
 
@@ -1435,6 +1572,7 @@ func c13GenSeq(r *rand.Rand) c13In {
 		in.Calls = append(in.Calls, c)
 	}
 	in.Debug = r.Intn(4) == 0
+	in.Via = c13GenVia(r)
 	return in
 }
 
@@ -1557,9 +1695,50 @@ func (c13) Enumerate(tier string) []any {
 		}
 	}
 	// client / context precedence: all eight combinations
-	for m := 0; m < 8; m++ {
-		out = append(out, c13In{Kind: "resp", Default: "application/json", Registry: []Bs{"application/json"}, Code: 200, Status: "200 OK",
-			OpClient: m&1 != 0, OpCtx: m&2 != 0, RtCtx: m&4 != 0})
+	// x submitted to the Runtime itself / through each of its tracing decorators
+	for via := 0; via < 3; via++ {
+		for m := 0; m < 8; m++ {
+			out = append(out, c13In{Kind: "resp", Default: "application/json", Registry: []Bs{"application/json"}, Code: 200, Status: "200 OK",
+				OpClient: m&1 != 0, OpCtx: m&2 != 0, RtCtx: m&4 != 0, Via: via})
+		}
+	}
+	// through the decorators, an operation with a context: every operation client x a lazily built and a preset runtime client;
+	// every pair of contexts, the operation's cancelled during the call
+	for via := 1; via < 3; via++ {
+		for _, o := range ops {
+			out = append(out, c13In{Kind: "route", Default: "application/json", OpCfg: o, RtCfg: &c13Client{Transport: true, Jar: true}, OpCtx: true, Via: via},
+				c13In{Kind: "route", Default: "application/json", OpCfg: o, RtCfg: &c13Client{Transport: true, Redirect: 1, Jar: true}, RtPreset: true, OpCtx: true, RtCtx: true, Via: via})
+		}
+		for _, oc := range opCtxs {
+			for _, rc := range rtCtxs {
+				out = append(out, c13In{Kind: "ctx", Default: "application/json", OpCtxCfg: oc, RtCtxCfg: rc, Action: 1, TimeoutRank: 4 * (via - 1), Via: via})
+			}
+		}
+		for _, reg := range [][]Bs{{"application/json", "text/plain"}, {"application/json", "*/*"}} {
+			out = append(out, c13In{Kind: "seq", Default: "application/json", Registry: reg, Calls: seqs[1], Via: via})
+		}
+	}
+	// a payload announced as encoded reaches the reader as received, header and bytes: every announced encoding x every shape of
+	// an encoded (or not encoded) payload x json / octet-stream x how it is read
+	en := 0
+	for _, enc := range []string{"gzip", "GZIP", "x-gzip", "deflate", "br", "identity", "deflate, gzip", "<absent>"} {
+		for shape := -1; shape < c13EncodeShapes; shape++ {
+			body := []byte("{\"a\":1,\"b\":\"plain\"}")
+			if shape >= 0 {
+				body = c13Encode(body, shape)
+			}
+			in := c13In{Kind: "resp", Default: "application/json", Registry: []Bs{"application/json", "*/*"}, Code: []int{200, 200, 206, 404}[en%4], Body: Bs(body),
+				ReadChunk: []int{0, 1, 7, 4096}[en%4], ViaCons: en%3 == 0, Debug: en%5 == 0,
+				Headers: []c13Header{{Key: "Content-Type", Values: []Bs{Bs([]string{"application/json", "application/octet-stream"}[en%2])}}},
+				Queries: []Bs{"Content-Encoding", "content-length", "Vary", "content-type"}}
+			in.Status = Bs(fmt.Sprintf("%d %s", in.Code, http.StatusText(in.Code)))
+			if enc != "<absent>" {
+				in.Headers = append(in.Headers, c13Header{Key: "Content-Encoding", Values: []Bs{Bs(enc)}}, c13Header{Key: "Vary", Values: []Bs{"Accept-Encoding"}})
+			}
+			in.Headers = append(in.Headers, c13Header{Key: "Content-Length", Values: []Bs{Bs(strconv.Itoa(len(body)))}})
+			out = append(out, in)
+			en++
+		}
 	}
 	// concurrent first calls
 	for _, g := range []int{2, 8, 32} {
